@@ -13,31 +13,81 @@ import (
 )
 
 // Lazy: 16 goroutines behind a barrier call the returned function; f ran exactly once, everybody
-// got f's result, later calls too.
+// got f's result, later calls too. Result types: non-interface T with distinct-per-call and with
+// zero-value results, interface T (error, any, a method interface) with a nil result, a non-nil
+// result and a typed nil pointer inside the interface; and an f that panics.
 
 type cell struct {
 	ID int `json:"id"`
 }
 
+// reader is a small method interface (io.Reader-like); *rd implements it.
+type reader interface {
+	Read(p []byte) (int, error)
+}
+
+type rd struct{ id int64 }
+
+func (r *rd) Read(p []byte) (int, error) { return 0, nil }
+
 const lazyCallers = 16
 
+type lazyVariant struct {
+	name string
+	run  func(c *vkit.Case, name string) bool
+}
+
+func lz[T comparable](mk func(c *vkit.Case, call int64) T) func(c *vkit.Case, name string) bool {
+	return func(c *vkit.Case, name string) bool {
+		return lazyCase(c, name, func(call int64) T { return mk(c, call) }, false)
+	}
+}
+
+var lazyVariants = []lazyVariant{
+	// results that differ per call of f (a second run of f shows in the results as well)
+	{"int64 / distinct", lz(func(c *vkit.Case, call int64) int64 { return int64(c.Index)*1000 + call })},
+	{"string / distinct", lz(func(c *vkit.Case, call int64) string { return fmt.Sprintf("lazy-%d-call-%d", c.Index, call) })},
+	{"*cell / distinct", lz(func(c *vkit.Case, call int64) *cell { return &cell{ID: int(call)} })},
+	// zero-value results of non-interface types
+	{"int64 / zero value", lz(func(c *vkit.Case, call int64) int64 { return 0 })},
+	{"string / zero value", lz(func(c *vkit.Case, call int64) string { return "" })},
+	{"*cell / zero value", lz(func(c *vkit.Case, call int64) *cell { return nil })},
+	{"struct{} / zero value", lz(func(c *vkit.Case, call int64) struct{} { return struct{}{} })},
+	// interface result types
+	{"error / nil", lz(func(c *vkit.Case, call int64) error { return nil })},
+	{"error / non-nil", lz(func(c *vkit.Case, call int64) error { return &perr{c.Index, int(call)} })},
+	{"error / typed nil pointer", lz(func(c *vkit.Case, call int64) error { return (*perr)(nil) })},
+	{"any / nil", lz(func(c *vkit.Case, call int64) any { return nil })},
+	{"any / non-nil", lz(func(c *vkit.Case, call int64) any {
+		if c.Index%2 == 0 {
+			return int(call) + 10*c.Index
+		}
+		return &cell{ID: int(call)}
+	})},
+	{"any / typed nil pointer", lz(func(c *vkit.Case, call int64) any { return (*cell)(nil) })},
+	{"reader / nil", lz(func(c *vkit.Case, call int64) reader { return nil })},
+	{"reader / non-nil", lz(func(c *vkit.Case, call int64) reader { return &rd{id: call} })},
+	{"reader / typed nil pointer", lz(func(c *vkit.Case, call int64) reader { return (*rd)(nil) })},
+	// f panics
+	{"int64 / f panics", func(c *vkit.Case, name string) bool {
+		return lazyCase(c, name, func(call int64) int64 { panic(fmt.Sprintf("lazy-f-panic-%d", call)) }, true)
+	}},
+	{"error / f panics", func(c *vkit.Case, name string) bool {
+		return lazyCase(c, name, func(call int64) error { panic(fmt.Sprintf("lazy-f-panic-%d", call)) }, true)
+	}},
+}
+
 func lazies(r *vkit.Report) {
-	n := r.Scale(300, 3000)
+	per := r.Scale(20, 170)
+	n := per * len(lazyVariants)
+	r.Assume("Lazy with a panicking f: only 'f ran exactly once' is demanded (the statement: runs its function once); what the callers of such a Lazy get (the same panic again, as sync.OnceValue does) is recorded, not judged")
 	var abort bool
 	r.Cases("lazy", n, 1, func(c *vkit.Case) {
 		if abort {
 			return
 		}
-		ok := true
-		switch c.Index % 3 {
-		case 0:
-			ok = lazyCase(c, "int64", func(call int64) int64 { return int64(c.Index)*1000 + call })
-		case 1:
-			ok = lazyCase(c, "string", func(call int64) string { return fmt.Sprintf("lazy-%d-call-%d", c.Index, call) })
-		case 2:
-			ok = lazyCase(c, "*cell", func(call int64) *cell { return &cell{ID: int(call)} })
-		}
-		if !ok {
+		v := lazyVariants[c.Index%len(lazyVariants)]
+		if !v.run(c, v.name) {
 			abort = true
 		}
 	})
@@ -46,9 +96,38 @@ func lazies(r *vkit.Report) {
 	}
 	r.Floor("Lazy barrier rounds", r.Table("lazy", "rounds"), int64(n))
 	r.Floor("Lazy rounds in which callers arrived while f was running", r.Table("lazy", "rounds with callers arriving while f ran"), int64(n/4))
+	for _, v := range lazyVariants {
+		r.Floor("Lazy rounds with result "+v.name, r.Table("lazy-variants", v.name), int64(per))
+	}
 }
 
-func lazyCase[T comparable](c *vkit.Case, tname string, mk func(call int64) T) bool {
+// summarize renders a list of outcomes as "16x A" / "3x A, 13x B" (first few classes).
+func summarize(out []string) string {
+	var order []string
+	cnt := make(map[string]int)
+	for _, o := range out {
+		if cnt[o] == 0 {
+			order = append(order, o)
+		}
+		cnt[o]++
+	}
+	s := ""
+	for i, o := range order {
+		if i == 3 {
+			s += fmt.Sprintf(", ... (%d distinct outcomes)", len(order))
+			break
+		}
+		if i > 0 {
+			s += ", "
+		}
+		s += fmt.Sprintf("%dx %q", cnt[o], o)
+	}
+	return s
+}
+
+// lazyCase runs one barrier round. mk makes f's result from the ordinal of the call of f;
+// fPanics: mk panics instead.
+func lazyCase[T comparable](c *vkit.Case, tname string, mk func(call int64) T, fPanics bool) bool {
 	r := c.R
 	rnd := c.Rand
 	var calls, arrived atomic.Int64
@@ -65,10 +144,12 @@ func lazyCase[T comparable](c *vkit.Case, tname string, mk func(call int64) T) b
 		case fDelay > 1:
 			time.Sleep(time.Duration(fDelay) * time.Microsecond)
 		}
+		if n == 1 {
+			arrivedAtEntry, arrivedAtExit = a, arrived.Load()
+		}
 		v := mk(n)
 		if n == 1 {
 			first = v
-			arrivedAtEntry, arrivedAtExit = a, arrived.Load()
 		}
 		return v
 	})
@@ -98,7 +179,7 @@ func lazyCase[T comparable](c *vkit.Case, tname string, mk func(call int64) T) b
 	go func() { wg.Wait(); close(done) }()
 	verdict, dump := vkit.Await(done, awaitOpts)
 	witness := func(extra map[string]any) map[string]any {
-		m := map[string]any{"type": tname, "callers": lazyCallers, "f_delay_us": fDelay, "f_calls": calls.Load()}
+		m := map[string]any{"result_type_and_kind": tname, "callers": lazyCallers, "f_delay_us": fDelay, "f_calls": calls.Load(), "f_panics": fPanics}
 		for k, v := range extra {
 			m[k] = v
 		}
@@ -112,19 +193,39 @@ func lazyCase[T comparable](c *vkit.Case, tname string, mk func(call int64) T) b
 		r.Inconclusive(fmt.Sprintf("case %s: Lazy callers did not return, goroutines still runnable at the hard limit", c.ID()))
 		return false
 	}
+	outcomes := func() []string {
+		var out []string
+		for i := range results {
+			if panics[i] != nil {
+				out = append(out, "panic: "+panics[i].Msg)
+			} else {
+				out = append(out, desc(any(results[i])))
+			}
+		}
+		return out
+	}
 	r.Eval(1)
 	if n := calls.Load(); n != 1 {
-		c.Violation("lazy-f-count", fmt.Sprintf("Lazy[%s]: f ran %d times for %d concurrent first calls (want exactly once)", tname, n, lazyCallers), witness(nil))
+		c.Violation("lazy-f-count", fmt.Sprintf("Lazy[%s]: f ran %d times for %d concurrent first calls (want exactly once); callers got %s", tname, n, lazyCallers, summarize(outcomes())),
+			witness(map[string]any{"outcomes": outcomes()}))
 		return true
 	}
+	samePanic := true
 	check := func(i int, v T, p *vkit.Panic, when string) bool {
 		r.Eval(1)
+		if fPanics {
+			// not judged: recorded
+			if p == nil || p.Msg != "lazy-f-panic-1" {
+				samePanic = false
+			}
+			return true
+		}
 		if p != nil {
-			c.Violation("lazy-panic", fmt.Sprintf("Lazy[%s]: %s call %d panicked: %s", tname, when, i, p.Msg), witness(nil))
+			c.Violation("lazy-panic", fmt.Sprintf("Lazy[%s]: %s call %d panicked although f returned %s: %s", tname, when, i, desc(any(first)), p.Msg), witness(map[string]any{"outcomes": outcomes()}))
 			return false
 		}
 		if v != first {
-			c.Violation("lazy-result", fmt.Sprintf("Lazy[%s]: %s call %d returned %v, f returned %v", tname, when, i, v, first), witness(map[string]any{"results": fmt.Sprint(results)}))
+			c.Violation("lazy-result", fmt.Sprintf("Lazy[%s]: %s call %d returned %s, f returned %s", tname, when, i, desc(any(v)), desc(any(first))), witness(map[string]any{"outcomes": outcomes()}))
 			return false
 		}
 		return true
@@ -158,18 +259,22 @@ func lazyCase[T comparable](c *vkit.Case, tname string, mk func(call int64) T) b
 	}
 	r.Eval(1)
 	if n := calls.Load(); n != 1 {
-		c.Violation("lazy-f-count", fmt.Sprintf("Lazy[%s]: f ran %d times after later calls (want exactly once)", tname, n), witness(nil))
+		c.Violation("lazy-f-count", fmt.Sprintf("Lazy[%s]: f had run %d times after the later calls (want exactly once)", tname, n), witness(nil))
 		return true
 	}
 	r.Count("lazy", "rounds", 1)
+	r.Count("lazy-variants", tname, 1)
+	if fPanics {
+		r.Count("lazy-outside-statement", map[bool]string{true: "f panics: every caller gets the same panic again (recorded, not judged)", false: "f panics: callers got differing outcomes (recorded, not judged)"}[samePanic], 1)
+	}
 	if arrivedAtExit > arrivedAtEntry {
 		r.Count("lazy", "rounds with callers arriving while f ran", 1)
 	}
 	r.Max("lazy", "callers that had arrived before f returned", int(arrivedAtExit))
 	r.Distinct(fmt.Sprintf("l:%s:%d:%d", tname, fDelay, arrivedAtExit))
-	if r.WantSample() && c.Index == 4 {
-		r.Sample(map[string]any{"kind": "lazy round", "type": tname, "callers": lazyCallers, "f_delay_us": fDelay, "f_calls": 1,
-			"callers_arrived_when_f_started": arrivedAtEntry, "callers_arrived_when_f_returned": arrivedAtExit, "result": fmt.Sprint(first)})
+	if r.WantSample() && c.Index == 7 {
+		r.Sample(map[string]any{"kind": "lazy round", "result_type_and_kind": tname, "callers": lazyCallers, "f_delay_us": fDelay, "f_calls": 1,
+			"callers_arrived_when_f_started": arrivedAtEntry, "callers_arrived_when_f_returned": arrivedAtExit, "result": desc(any(first))})
 	}
 	return true
 }
